@@ -122,8 +122,16 @@ def run_case(spec):
         if base != varied:
             k = next((i for i, (a, b) in enumerate(zip(base, varied)) if a != b), None)
             out.problem("C07:workload-depends-on-non-workload-parameter", f"changing only {sorted(other)} changed the workload (first difference at event {k})")
-        if base == reseeded:
-            out.problem("C07:seed-ignored", f"seeds {wl['random_seed']} and {wl['random_seed'] + 1} give the same workload")
+        # a parameter set that leaves nothing to chance (e.g. query_prob = 1 and a waiting time of one tick) has only one
+        # possible workload; "different seeds give different workloads" is required where the workload has random content
+        classes = sum(1 for k in ("query_prob", "interactive_prob", "batch_prob") if wl[k] > 0)
+        rich = classes >= 2 or (wl["query_prob"] < 1 and wl["num_operators"] >= 2)
+        if rich:
+            out.label("rich_parameter_set")
+            if base == reseeded:
+                out.problem("C07:seed-ignored", f"seeds {wl['random_seed']} and {wl['random_seed'] + 1} give the same workload")
+        else:
+            out.label("deterministic_parameter_set")
         out.nontrivial = True
         return out
     target = spec["target"]
